@@ -372,6 +372,7 @@ static int FifoTokens(const string& path);
 
 struct ModelRunner : public CommandRunner {
   State* state;
+  Jobserver::Client* jobserver = nullptr;   // as RealCommandRunner: tokens of killed commands are handed back in Abort()
   explicit ModelRunner(State* s) : state(s) {}
 
   size_t CanRunMore() const override {
@@ -520,7 +521,9 @@ struct ModelRunner : public CommandRunner {
       first = false;
       k += "{\"s\":" + to_string(r.st->id) + ",\"partial\":" + (partial ? "true" : "false") + "}";
     }
-    // Release jobserver tokens as the real runner does (ClearJobTokens).
+    // Release jobserver tokens as the real runner does (RealCommandRunner::ClearJobTokens).
+    if (jobserver)
+      for (auto& r : g_inv->running) jobserver->Release(std::move(r.edge->job_slot_));
     Emit("{\"e\":\"Abort\",\"killed\":" + k + "]}");
     g_aborted = g_inv->running;
     g_inv->running.clear();
@@ -692,7 +695,11 @@ static void ChildInvocation(const JV& step) {
       if (!client.get()) finish(1, "jobserver: " + jerr);
       builder.SetJobserverClient(std::move(client));
     }
-    if (!dry) builder.command_runner_.reset(new ModelRunner(&state));
+    if (!dry) {
+      ModelRunner* mr = new ModelRunner(&state);
+      mr->jobserver = builder.jobserver_.get();
+      builder.command_runner_.reset(mr);
+    }
     vector<Node*> targets;
     bool ok = true;
     if (step["targets"].a.empty()) {
